@@ -35,6 +35,13 @@ REQUIRED_CLASSES = ["nontrivial", "fallback_global", "outside_one_axis", "outsid
 QUICK_SHARDS = 4
 
 spatial_grid = sut.load("spatial_grid")
+_PROBE_PATHS = [[[0.0, 0.0], [1.0, 1.0]], [[9.0, 9.0], [8.0, 8.0]], [[4.0, 5.0], [5.0, 4.0]]]
+OPTION_PROBES = [(spatial_grid.Index, ["vertices", "bins_per_side", "reverse"], [_PROBE_PATHS, 3, True]),
+                 (spatial_grid.Index.nearest, ["self", "vertex_in"],
+                  lambda: [spatial_grid.Index([list(map(list, p)) for p in _PROBE_PATHS], 3, True), [4.0, 4.0]]),
+                 (spatial_grid.Index.remove_path, ["self", "path_index"],
+                  lambda: [spatial_grid.Index([list(map(list, p)) for p in _PROBE_PATHS], 3, True), 1])]
+
 AMBIG = F(1, 10 ** 9)
 SLACK = F(1, 10 ** 12)
 
